@@ -126,6 +126,17 @@ static const char *resname(int kind, int err)
     }
 }
 
+/* result classes used in signatures: one root cause seen through several errnos is one signature */
+static const char *rescls(int kind, int err)
+{
+    switch (kind) {
+    case K_OK: return "success";
+    case K_AGAIN: return "EAGAIN";
+    case K_EOF: return "0";
+    default: return err == EPIPE ? "EPIPE" : err == EPROTO ? "EPROTO" : "break-errno";
+    }
+}
+
 static const char *endname(int e)
 {
     static const char *n[] = { "alive", "orderly-close", "reset", "close-with-refused-writes" };
@@ -345,8 +356,8 @@ static void after_call(struct ep *x, int call, int kind, int err)
         }
         if (!ok) {
             snprintf(sig, sizeof sig, "C06/not-sticky/first=%s:%s/then=%s:%s/tp=%s", CALLN[x->term_call],
-                     resname(x->term_kind, x->term_errno),
-                     CALLN[call], res, g_tp);
+                     rescls(x->term_kind, x->term_errno), CALLN[call],
+                     kind == K_ERR && !x->term_closed_class && err != EPIPE && err != EPROTO ? "other-errno" : rescls(kind, err), g_tp);
             viol(sig, "%s: the first terminal report was xcm_%s -> %s; a later xcm_%s returned %s (peer: %s%s)",
                  x->name, CALLN[x->term_call], resname(x->term_kind, x->term_errno),
                  CALLN[call], res, endname(x->peer_end), x->eof_seen ? "; a receive had already returned 0" : "");
@@ -394,7 +405,7 @@ static void after_call(struct ep *x, int call, int kind, int err)
            since (tconnect closes it on a failed establishment) is not this endpoint's misreport */
         if (peer_of(x)->name && peer_of(x)->term_seen)
             break;
-        snprintf(sig, sizeof sig, "C06/terminal-without-cause/%s:%s/tp=%s", CALLN[call], res, g_tp);
+        snprintf(sig, sizeof sig, "C06/terminal-without-cause/%s:%s/tp=%s", CALLN[call], rescls(kind, err), g_tp);
         viol(sig, "%s: xcm_%s returned %s although the peer has neither closed nor died and the environment injected no fault",
              x->name, CALLN[call], res);
         break;
@@ -403,7 +414,7 @@ static void after_call(struct ep *x, int call, int kind, int err)
         if (x->peer_raw && g_tls && kind == K_ERR && err == EPROTO)
             ok = 1;          /* TCP FIN without close_notify: a truncation, reported as a protocol error */
         if (!ok) {
-            snprintf(sig, sizeof sig, "C06/close-misreported/%s:%s/tp=%s", CALLN[call], res, g_tp);
+            snprintf(sig, sizeof sig, "C06/close-misreported/%s:%s/tp=%s", CALLN[call], rescls(kind, err), g_tp);
             viol(sig, "%s: the peer closed the connection in an orderly way; xcm_%s reported %s", x->name, CALLN[call], res);
         }
         /* a raw TLS peer that dies without close_notify has not "closed" at the TLS level: no drain is owed */
@@ -431,7 +442,7 @@ static void after_call(struct ep *x, int call, int kind, int err)
         if (!ok && !g_T && (x->term_closed_class || kind == K_ERR))
             ok = 1;          /* AF_UNIX: ECONNRESET is reported once, by whichever call comes first */
         if (!ok) {
-            snprintf(sig, sizeof sig, "C06/reset-misreported/%s:%s/tp=%s", CALLN[call], res, g_tp);
+            snprintf(sig, sizeof sig, "C06/reset-misreported/%s:%s/tp=%s", CALLN[call], rescls(kind, err), g_tp);
             viol(sig, "%s: the connection was reset by the peer; xcm_%s reported %s", x->name, CALLN[call], res);
         }
         break;
@@ -686,7 +697,7 @@ static void task_client(void *arg)
         int expect = x->fault_errno ? x->fault_errno : x->conn_fault;
         x->fault_reported = 1;
         if (!expect) {
-            snprintf(sig, sizeof sig, "C06/terminal-without-cause/connect:%s/tp=%s", errname(e), g_tp);
+            snprintf(sig, sizeof sig, "C06/terminal-without-cause/connect:%s/tp=%s", rescls(K_ERR, e), g_tp);
             viol(sig, "xcm_connect_a(%s) failed with %s although the server listens and no fault was injected", g_addr, errname(e));
         } else if (e != expect && !(e == ETIMEDOUT && env_now_ns() - g_t0 >= 3000000000LL)) {
             snprintf(sig, sizeof sig, "C06/%s/call=connect/got=%s/tp=%s", x->fault_errno ? "fault-not-reported/injected=break-errno" :
@@ -739,7 +750,7 @@ static void task_acceptor(void *arg)
                 viol(sig, "the environment failed a data-path call with %s during xcm_accept_a, which failed with %s",
                      errname(expect), errname(e));
             } else if (!expect && x->peer_end == END_ALIVE && !(p->name && (p->done || p->fault_errno))) {
-                snprintf(sig, sizeof sig, "C06/terminal-without-cause/accept:%s/tp=%s", errname(e), g_tp);
+                snprintf(sig, sizeof sig, "C06/terminal-without-cause/accept:%s/tp=%s", rescls(K_ERR, e), g_tp);
                 viol(sig, "xcm_accept_a failed with %s although the client is alive and no fault was injected", errname(e));
             }
             xcm_attr_map_destroy(at);
@@ -1196,7 +1207,10 @@ static void scenario(const char *params)
     mc_set_state_fn(state_digest);
 
     int id = getpid();
-    g_port = 20000 + id % 20000;
+    /* utls derives an abstract AF_UNIX name from ip:port, and abstract names are global to the network namespace:
+       stay out of the port ranges the other harnesses use (20000-40999) so that a utls client of this harness can
+       never meet a utls server of a concurrently running check */
+    g_port = 45000 + id % 20000;
     if (!strcmp(g_tp, "ux"))
         snprintf(g_addr, sizeof g_addr, "ux:mcx-term-%d", id);
     else if (!strcmp(g_tp, "uxf")) {
